@@ -383,7 +383,7 @@ def run(ctx, host=None):
     # the pack files agree at every step of the writers and of the repack hand-over (C03)
     if host is None:
         from ..report import host_modules
-        host_modules(chk, ctx, ['C03'])
+        host_modules(chk, ctx, ['C03', 'C07'])
 
     return chk.finish(
         explanation=('Static checks of the compression logic: exhaustive and constant mode table of should_compress, def-use agreement between the flag stored in the index '
